@@ -113,37 +113,54 @@ def _assign(l, rv, line):
     return {"k": "assign", "lhs": lhs, "rv": rv, "line": line, "exp": False}
 
 
-def thread_jumps(body, rounds=4):
-    """Jump threading for flag locals: `X = const c; goto T` where T only copies X around and then switches on it is
-    redirected to the switch target selected by c.  The expansions above produce exactly this shape (`dest = true; goto
-    T`), and without threading the CFG would contain infeasible paths from the `true` exit to the `false` arm."""
+def thread_jumps(body, rounds=4, hops=4):
+    """Jump threading for flag locals: `X = const c; goto ...; T: switch X` where the blocks in between (and T before its
+    switch) only copy values around is redirected to the switch target selected by c.  The expansions above produce exactly
+    this shape (`dest = true; goto T`), and without threading the CFG would contain infeasible paths from the `true`
+    exit to the `false` arm."""
     blocks = body["blocks"]
+
+    def copies_only(stmts):
+        for st in stmts:
+            if st["k"] == "dead":
+                continue
+            if st["k"] == "assign" and not st["lhs"]["p"] and st["rv"]["k"] == "use" and st["rv"]["op"]["k"] in ("copy", "move") \
+                    and not st["rv"]["op"]["pl"]["p"]:
+                continue
+            return False
+        return True
+
     for _ in range(rounds):
         changed = False
         for b in blocks:
             t = b["term"]
             if t["k"] != "goto":
                 continue
-            T = blocks[t["t"]]
-            if T is b or T["term"]["k"] != "switch" or T["cleanup"] != b["cleanup"]:
+            # follow gotos through copy-only blocks to a switch
+            chain = []
+            cur = t["t"]
+            T = None
+            for _h in range(hops):
+                blk = blocks[cur]
+                if blk is b or blk["cleanup"] != b["cleanup"] or not copies_only(blk["stmts"]):
+                    break
+                chain.append(blk)
+                if blk["term"]["k"] == "switch":
+                    T = blk
+                    break
+                if blk["term"]["k"] != "goto":
+                    break
+                cur = blk["term"]["t"]
+            if T is None:
                 continue
             op = T["term"]["op"]
             if op["k"] not in ("copy", "move") or op["pl"]["p"]:
                 continue
             src = op["pl"]["l"]
-            ok = True
-            for st in reversed(T["stmts"]):
-                if st["k"] == "dead":
-                    continue
-                if st["k"] == "assign" and not st["lhs"]["p"] and st["rv"]["k"] == "use" and st["rv"]["op"]["k"] in ("copy", "move") \
-                        and not st["rv"]["op"]["pl"]["p"]:
-                    if st["lhs"]["l"] == src:
+            for blk in reversed(chain):
+                for st in reversed(blk["stmts"]):
+                    if st["k"] == "assign" and st["lhs"]["l"] == src:
                         src = st["rv"]["op"]["pl"]["l"]
-                    continue
-                ok = False
-                break
-            if not ok:
-                continue
             val = None
             for st in reversed(b["stmts"]):
                 if st["k"] == "assign" and st["lhs"]["l"] == src:
@@ -157,7 +174,8 @@ def thread_jumps(body, rounds=4):
             for v, tg in zip(sw["vals"], sw["tgts"]):
                 if v == val:
                     tgt = tg
-            b["stmts"].extend(copy.deepcopy(T["stmts"]))
+            for blk in chain:
+                b["stmts"].extend(copy.deepcopy(blk["stmts"]))
             b["term"] = {"k": "goto", "t": tgt, "line": t.get("line", 0), "exp": False}
             changed = True
         if not changed:
@@ -490,7 +508,8 @@ class Inliner:
     def _try_collect(self, i, b, t):
         """`iter.collect::<Vec<_>>()` over a fusable adapter chain -> explicit push loop."""
         dty = (t.get("dty") or "")
-        if not dty.startswith("std::vec::Vec<") or t.get("dest") is None or t.get("t") is None:
+        as_result = dty.startswith("std::result::Result<std::vec::Vec<")
+        if not (dty.startswith("std::vec::Vec<") or as_result) or t.get("dest") is None or t.get("t") is None:
             return False
         a0 = t["args"][0]
         if a0["k"] not in ("copy", "move") or a0["pl"]["p"]:
@@ -523,14 +542,29 @@ class Inliner:
         end = self._new_block(d, ch, cleanup, line)
         body = self._new_block(d, ch, cleanup, line)
         self.blocks[sw]["term"] = {"k": "switch", "op": _mv(dl), "dty": "isize", "vals": [0], "tgts": [end], "otherwise": body, "line": line, "exp": False}
-        _finish(self, end, t, _use(_mv(vec)))
+        if as_result:
+            _finish(self, end, t, _agg(RES, "Ok", 0, [_mv(vec)]))
+            # item is a Result: Err(e) ends the collection with Err(e), Ok(v) is pushed
+            item_l = self._new_local("std::result::Result<?, ?>")
+            self.blocks[body]["stmts"].append(_assign(item_l, _use(_mvp(_variant_field({"l": nx, "p": []}, "Some", 1, OPT))), line))
+            d2 = self._new_local("isize")
+            self.blocks[body]["stmts"].append(_assign(d2, {"k": "discr", "pl": {"l": item_l, "p": []}}, line))
+            okb = self._new_block(d, ch, cleanup, line)
+            erb = self._new_block(d, ch, cleanup, line)
+            self.blocks[body]["term"] = {"k": "switch", "op": _mv(d2), "dty": "isize", "vals": [0], "tgts": [okb], "otherwise": erb, "line": line, "exp": False}
+            _finish(self, erb, t, _agg(RES, "Err", 1, [_mvp(_variant_field({"l": item_l, "p": []}, "Err", 1, RES))]))
+            body = okb
+            pushed = _mvp(_variant_field({"l": item_l, "p": []}, "Ok", 0, RES))
+        else:
+            _finish(self, end, t, _use(_mv(vec)))
+            pushed = _mvp(_variant_field({"l": nx, "p": []}, "Some", 1, OPT))
         vref = self._new_local("&mut " + dty)
         self.blocks[body]["stmts"].append(_assign(vref, {"k": "ref", "bk": "mut", "pl": {"l": vec, "p": []}}, line))
         unit = self._new_local("()")
         self.blocks[body]["term"] = {"k": "call", "f": {"k": "const", "ty": "fn push", "fn": {
             "key": "alloc::vec::{impl#1}::push", "path": "std::vec::Vec::<T, A>::push", "name": "push", "dk": "AssocFn",
             "self_ty": "std::vec::Vec<T, A>", "self_adt": "std::vec::Vec", "local": False, "synthetic": True}},
-            "args": [_mv(vref), _mvp(_variant_field({"l": nx, "p": []}, "Some", 1, OPT))], "atys": ["&mut " + dty, "?"],
+            "args": [_mv(vref), pushed], "atys": ["&mut " + dty, "?"],
             "dest": {"l": unit, "p": []}, "dty": "()", "t": head, "unwind": t.get("unwind", "continue"), "line": line, "exp": False}
         self.inlined.append("<iter::collect>")
         return True
@@ -630,6 +664,8 @@ class Inliner:
             kind = "res"
         elif (c.get("trait") or r.get("trait") or "").endswith("iter::Iterator") or (c.get("of_trait") or "").endswith("iter::Iterator"):
             kind = "iter"
+        if kind is None and name == "then" and ((r.get("self_ty") or c.get("self_ty") or "") == "bool" or (t.get("atys") or [""])[0] == "bool"):
+            kind = "bool"
         if kind is None:
             return False
         tmpl = TEMPLATES.get((kind, name))
@@ -818,6 +854,23 @@ _reg("res", "is_err_and", [1], _res_build(
 _reg("res", "map_or", [2], _res_build(
     lambda inl, b, t, cls, pl: _closure_then(inl, b, t, cls[2], [_mvp(pl)], None),
     lambda inl, b, t, cls, pl: _finish(inl, b, t, _use(copy.deepcopy(t["args"][1])))))
+
+
+# ---- bool::then
+def _build_bool_then(inl, i, t, cls):
+    line = t.get("line", 0)
+    b = inl.blocks[i]
+    a0 = t["args"][0]
+    cnd = inl._new_local("bool")
+    b["stmts"].append(_assign(cnd, _use(copy.deepcopy(a0)), line))
+    yes = inl._new_block(inl.depth[i], inl.chain[i], b["cleanup"], line)
+    no = inl._new_block(inl.depth[i], inl.chain[i], b["cleanup"], line)
+    b["term"] = {"k": "switch", "op": _mv(cnd), "dty": "bool", "vals": [0], "tgts": [no], "otherwise": yes, "line": line, "exp": False}
+    _closure_then(inl, yes, t, cls[1], [], lambda r: _agg(OPT, "Some", 1, [r]))
+    _finish(inl, no, t, _agg(OPT, "None", 0, []))
+
+
+_reg("bool", "then", [1], _build_bool_then)
 
 
 # ---- Iterator consumers: a `next` loop around the closure.
